@@ -300,6 +300,32 @@ func runHTTP(cfg *runCfg, prop string) error {
 	}
 	id := 0
 	for i := 0; i < n; i++ {
+		if replay == nil && prop == "C15" && r.Intn(100) < 12 {
+			// multipart layouts: the placement of files is C18's subject; here only "no crash, GraphQL-shaped, 4xx on error"
+			g18 := &c18Gen{r: r}
+			in, _ := g18.input()
+			for k := range in.Ops {
+				in.Ops[k].Nil = false
+			}
+			o18 := c18HTTPFull(in)
+			c := sh.File()
+			bodyObs := "None"
+			if !o18.NotJS && o18.Panic == "" {
+				bodyObs = "(Some " + c.JSON(o18.Body) + ")"
+			}
+			ran := []string{}
+			for _, b := range o18.Ran {
+				ran = append(ran, coqBool(b))
+			}
+			obsTerm := fmt.Sprintf("{| ob_panic := %s; ob_status := %d; ob_body := %s; ob_ran := [%s] |}", coqBool(o18.Panic != ""), o18.Status, bodyObs, strings.Join(ran, "; "))
+			c.Printf("Eval vm_compute in (%d%%nat, true, c15_holds (RPostJSON %s (Some (JObj []))) %s).\n", id, c.S("application/json"), obsTerm)
+			key, _ := json.Marshal(in)
+			doc.Cases = append(doc.Cases, CaseInfo{ID: id, Kind: "multipart", Input: map[string]interface{}{"multipart": in}, Observed: o18, Nontrivial: true, Key: "mp" + string(key)})
+			doc.Dist["kind:multipart"]++
+			doc.Dist[fmt.Sprintf("status:%d", o18.Status)]++
+			id++
+			continue
+		}
 		cs := replay
 		if cs == nil {
 			g := &fedGen{r: r, MultiHomePct: 20}
@@ -549,7 +575,7 @@ func runHTTP(cfg *runCfg, prop string) error {
 			ran = nil
 		}
 		obsTerm := fmt.Sprintf("{| ob_panic := %s; ob_status := %d; ob_body := %s; ob_ran := [%s] |}", coqBool(obs.Panic != ""), obs.Status, bodyObs, strings.Join(ran, "; "))
-		oracle := "c15_holds " + obsTerm
+		oracle := "c15_holds " + reqTerm + " " + obsTerm
 		if prop == "C16" {
 			oracle = fmt.Sprintf("c16_holds [%s] %s", strings.Join(singleBodies, "; "), obsTerm)
 		}
